@@ -44,6 +44,25 @@ func (g *gen) pruneScript() []Op {
 			ops = append(ops, Op{"ChangeSet", M{"c": c, "k": "k1", "v": g.picks([]string{"true", "true", "false"})}})
 		}
 	}
+	// restart while some changes are still empty, tasks are added afterwards (the change must stay unfinished
+	// for Prune: a loaded empty change reads as Hold/ready but has no ready time)
+	if r.Intn(3) == 0 {
+		ops = append(ops, Op{"SaveReload", M{}})
+		for c := 1; c <= k; c++ {
+			if len(tasksOf[c]) > 0 {
+				continue
+			}
+			step(3)
+			ops = append(ops, Op{"Tick", M{"h": hour}})
+			for n := 1 + r.Intn(2); n > 0; n-- {
+				task++
+				ops = append(ops, Op{"NewTask", M{"kind": "link", "summary": "t1"}}, Op{"AddTask", M{"c": c, "t": task}})
+				if r.Intn(2) == 0 {
+					ops = append(ops, Op{"SetStatus", M{"t": task, "s": "Doing"}})
+				}
+			}
+		}
+	}
 	if r.Intn(2) == 0 {
 		ops = append(ops, Op{"Register", M{"k": "k1"}})
 	}
